@@ -67,3 +67,16 @@ Proof.
   split; [vm_compute; reflexivity|]. split; [vm_compute; reflexivity|].
   eexists. split; [vm_compute; reflexivity|]. vm_compute. auto.
 Qed.
+
+(* expandPEP425Tag: exactly the product of the three dot-separated tag sets *)
+Theorem C04_wheel_tags_spec : forall py abi plat p a l,
+  In (p, a, l) (expand_tags py abi plat) <->
+  In p (split_on 46 py) /\ In a (split_on 46 abi) /\ In l (split_on 46 plat).
+Proof. exact expand_tags_in. Qed.
+Print Assumptions C04_wheel_tags_spec.
+
+Theorem C04_wheel_tags_count : forall py abi plat,
+  length (expand_tags py abi plat) =
+  (length (split_on 46 py) * (length (split_on 46 abi) * length (split_on 46 plat)))%nat.
+Proof. exact expand_tags_length. Qed.
+Print Assumptions C04_wheel_tags_count.
